@@ -459,9 +459,16 @@ def run_concur_job(job, scens, run_case, prop, files):
     scen = dict(scens[job["idx"]])
     if not scen.get("post"):
         scen["post"] = list(scen["threads"])       # the same calls once more, sequentially, after the threads have finished
-    bound = 1 if job["tier"] == "quick" else 2
-    hits = 2 if job["tier"] == "quick" else 3
-    ex = concur.explore_cases(acc, run_case, prop, scen, files, bound, max_hits=hits)
+    # quick: <= 1 preemption, offered at the first 2 executions of a line.  thorough: two passes - <= 1 preemption at the first
+    # 6 executions of a line, and <= 2 preemptions at the first execution of a line (capped at 40 000 executions, reported)
+    passes = [(1, 2, 20_000)] if job["tier"] == "quick" else [(1, 6, 40_000), (2, 1, 40_000)]
+    n_exec = 0
+    for bound, hits, cap in passes:
+        ex = concur.explore_cases(acc, run_case, prop, scen, files, bound, max_hits=hits, max_exec=cap)
+        n_exec += ex.executions
+
+    class ex:       # noqa
+        executions = n_exec
     acc.ob("concurrent_calls", ex.executions)
     acc.sample({"concurrent": [t[0] for t in scen["threads"]], "warm": [t[0] for t in scen.get("warm", [])], "executions": ex.executions,
                 "preemption_bound": bound, "preemption_offered_at_first_n_executions_of_a_line": hits})
